@@ -113,7 +113,8 @@ class C21(Prop):
             "previously returned locations, invalidate_location, filtered get_data_locations, get_source_location) over "
             "path trees of depth 1..4 drawn from a small component alphabet (so that paths collide), on 1..3 plain "
             "locations (one possibly local, two possibly sharing a deployment) plus up to two wrapped locations with "
-            "mount points; a full snapshot of get_data_locations over all mentioned paths and their ancestors is taken "
+            "mount points, plus scenarios (relation / invalidation / re-registration; groups of 3..4 related copies on "
+            "different paths); a full snapshot of get_data_locations over all mentioned paths and their ancestors is taken "
             "after every state-changing operation. Non-trivial = at least one invalidation followed by a registration, "
             "or a relation, or a wrapped registration. Distinct = distinct canonical JSON.")
     TRUSTED = ("model: DataReg/Model.v is hand-written; CPython dict order, pathlib.Path.parts, posixpath.join and "
@@ -204,6 +205,21 @@ class C21(Prop):
             return {"f": "hist", "locs": locs, "ops": [
                 ["reg", la, a, "PRIMARY"], ["reg", la, child, "PRIMARY"], ["reg", la, b, "PRIMARY"], ["rel", 0, 2],
                 ["inv", la, b], ["reg", la, child + "/g", "PRIMARY"], ["src", a, locs[la]["dep"]]]}
+        if rng.random() < 0.3:
+            # a group of 3..4 related copies on different paths / locations, built by relating to any earlier member
+            k = rng.choice([3, 3, 4])
+            ops = []
+            for i in range(k):
+                li = rng.randrange(len(locs))
+                ops.append(["reg", li, self._path(rng, locs, li) + f"/g{i}", rng.choice(["PRIMARY", "PRIMARY", "SYMBOLIC_LINK"])])
+                if i:
+                    ops.append(["rel", rng.randrange(i), i] if rng.random() < 0.8 else ["rel", i, rng.randrange(i)])
+            probe = rng.choice([o for o in ops if o[0] == "reg"])
+            ops.append(["src", probe[2], rng.choice(locs)["dep"]])
+            if rng.random() < 0.4:
+                ops.append(["inv", rng.randrange(len(locs)), rng.choice([o for o in ops if o[0] == "reg"])[2]])
+                ops.append(["rel", 0, k - 1])
+            return {"f": "hist", "locs": locs, "ops": [[x if not isinstance(x, str) else x.replace("//", "/") for x in o] for o in ops]}
         lb = la if rng.random() < 0.6 else rng.randrange(len(locs))
         a, b = self._path(rng, locs), self._path(rng, locs)
         ops = [["reg", la, a, "PRIMARY"], ["reg", lb, b, rng.choice(["PRIMARY", "SYMBOLIC_LINK"])], ["rel", 0, 1],
@@ -304,6 +320,27 @@ class C21(Prop):
         uni = universe(c)
         regobjs = [(key(x[1]), x[2]) for x in c["ops"] if x[0] == "reg"]
         regtimes = [i for i, x in enumerate(c["ops"], start=1) if x[0] == "reg"]
+        placed = {}         # node path -> {copy (key, path): registration time of the object put under that node}
+        demands = []        # (node path, copy that must be reported there, why) to be judged at the next snapshot
+
+        def place(node, copy, tr):
+            d = placed.setdefault(node, {})
+            d[copy] = max(d.get(copy, 0), tr)
+
+        def killed(copy):
+            return max(maybe.get(copy, 0), direct.get(copy, 0))
+
+        def relate(px, ycopy, ty, what):
+            # "related copies are reported for each other's paths": the new copy joins every path already related
+            # to the source path, and every copy reported for the source path joins the new copy's path; demanded
+            # only for copies that nothing since their registration may have invalidated
+            for cc, tr in list(placed.get(px, {}).items()):
+                place(cc[1], ycopy, ty)
+                place(ycopy[1], cc, tr)
+                if killed(ycopy) < ty:
+                    demands.append((cc[1], ycopy, what))
+                if killed(cc) < tr:
+                    demands.append((ycopy[1], cc, what))
         revived = {}        # (key, path) -> time of the last relation whose destination this copy was
         prev = {}
         for t, (op, ob) in enumerate(zip(c["ops"], o["ops"]), start=1):
@@ -314,19 +351,23 @@ class C21(Prop):
                 K = key(op[1])
                 for a in ancestors_or_self(op[2]):
                     created[(K, a)] = t
+                    place(a, (K, a), t)
                 prevp = op[2]
                 for li, q in inner_chain(locs, op[1], op[2]):
                     for a in ancestors_or_self(q):
                         created[(key(li), a)] = t
+                        place(a, (key(li), a), t)
                     graph.add(op[2], q)
                     graph.add(prevp, q)
                     prevp = q
+                    relate(op[2], (key(li), q), t, f"{q} on {key(li)} is the copy of {op[2]} on the wrapped location")
             elif k == "rel":
                 (ka, ra), (kb, rb) = regobjs[op[1]], regobjs[op[2]]
                 graph.add(ra, rb)
                 # "related to such a registration and not invalidated since": a relation made after an invalidation
                 # may legitimately make the related copy count again (never demanded, only tolerated)
                 revived[(kb, rb)] = t
+                relate(ra, (kb, rb), regtimes[op[2]], f"{rb} on {kb} was related to {ra}")
             elif k == "inv" and "err" not in ob:
                 K = key(op[1])
                 hit = [q for q in uni if beneath_or_equal(op[2], q)]
@@ -379,16 +420,15 @@ class C21(Prop):
                                 f"after op {t} {op}: {q} is not available on {K}")
                     return ("lost", f"after op {t} {op}: {q} registered on {K} at op {tc}, not invalidated since, "
                                     f"but not available")
-            # "... or related to such a registration": right after a relation, a copy that is still good shows up
-            # under the other path (demanded only when nothing since its registration may have invalidated it)
-            if k == "rel":
-                (ka, pa), (kb, pb) = regobjs[op[1]], regobjs[op[2]]
-                if max(maybe.get((kb, pb), 0), direct.get((kb, pb), 0)) < regtimes[op[2]] \
-                        and not any((it[0], it[1]) == kb for it in snap.get(pa, [])):
-                    return ("relation", f"after op {t} {op}: {pa} is not reported on {kb} although related to {pb} there")
-                if max(maybe.get((ka, pa), 0), direct.get((ka, pa), 0)) < created.get((ka, pa), 0) \
-                        and not any((it[0], it[1]) == ka for it in snap.get(pb, [])):
-                    return ("relation", f"after op {t} {op}: {pb} is not reported on {ka} although related to {pa} there")
+            # "... or related to such a registration": right after the relation (explicit, or made by register_path for
+            # a wrapped location) the related copies are reported for each other's paths, across the whole group
+            for node, copy, why in demands:
+                if not any((it[0], it[1]) == copy[0] and it[2] == copy[1] for it in snap.get(node, [])):
+                    pair = k == "rel" and node in (regobjs[op[1]][1], regobjs[op[2]][1]) \
+                        and copy in (regobjs[op[1]], regobjs[op[2]])
+                    return ("relation" if pair else "relation-group",
+                            f"after op {t} {op}: {node} does not report the copy {copy[1]} on {copy[0]} ({why})")
+            demands.clear()
             # isolation
             if k == "inv":
                 K = key(op[1])
